@@ -43,6 +43,7 @@ type sinkState struct {
 	alias   map[types.Object]types.Object // helper parameter -> the caller's sink
 	scalar  map[types.Object]scalarVal    // integer locals: what they hold
 	depth   int
+	bound   map[types.Object]*ast.SelectorExpr // locals holding a method value of a tracked sink (`put := w.Write`)
 }
 
 // scalarVal is what an integer-valued expression stands for.
@@ -250,6 +251,20 @@ func (s *sinkState) seqTokens(x ast.Expr) []string {
 		if tv, has := s.info.Types[v.Fun]; has && tv.IsType() && len(v.Args) == 1 {
 			return s.seqTokens(v.Args[0])
 		}
+		if sel, ok := ast.Unparen(v.Fun).(*ast.SelectorExpr); ok && sel.Sel.Name == "Sum" && len(v.Args) == 1 {
+			// hash.Hash.Sum(b): b followed by the current checksum, the state is left as it is
+			// (the digest of pkg/rdb/digest appends 8 bytes little-endian: C11 R2.state/Sum-little-endian)
+			if o := s.obj(sel.X); o != nil && s.isDig[o] {
+				var out []string
+				if !core.IsNil(s.info, v.Args[0]) {
+					out = s.seqTokens(v.Args[0])
+				}
+				s.ncrc++
+				key := fmt.Sprint(s.ncrc)
+				s.covered[key] = append([]string{}, s.content[o]...)
+				return append(out, "Crc64LE#"+key)
+			}
+		}
 		if b, ok := core.Callee(s.info, v).(*types.Builtin); ok && b.Name() == "append" {
 			return s.appendTokens(v)
 		}
@@ -353,6 +368,18 @@ func (s *sinkState) define(lhs *ast.Ident, typ types.Type, rhs ast.Expr) {
 	}
 	rhs = ast.Unparen(rhs)
 	t := s.info.TypeOf(rhs)
+	if sel, ok := rhs.(*ast.SelectorExpr); ok && t != nil {
+		if _, isFunc := t.Underlying().(*types.Signature); isFunc && s.targets(sel.X) != nil {
+			if s.bound == nil {
+				s.bound = map[types.Object]*ast.SelectorExpr{}
+			}
+			if _, again := s.bound[o]; again {
+				s.und("method value `%s` is re-bound", s.c.Src(rhs))
+			}
+			s.bound[o] = sel
+			return
+		}
+	}
 	switch {
 	case t != nil && hasMethod(t, "Sum64") && hasMethod(t, "Write"):
 		if _, isCall := rhs.(*ast.CallExpr); isCall {
@@ -423,7 +450,17 @@ func (s *sinkState) noSinkUse(n ast.Node) {
 	ast.Inspect(n, func(m ast.Node) bool {
 		if id, ok := m.(*ast.Ident); ok {
 			o := core.ObjOf(s.info, id)
-			if _, tracked := s.content[o]; tracked {
+			_, tracked := s.content[o]
+			if _, fanned := s.fan[o]; fanned { // a MultiWriter over tracked sinks is a tracked sink
+				tracked = true
+			}
+			if _, isArr := s.arrLen[o]; isArr && o != nil {
+				tracked = true
+			}
+			if _, aliased := s.alias[o]; aliased {
+				tracked = true
+			}
+			if tracked {
 				// len(x), cap(x) are harmless
 				s.und("tracked sink %s is used in `%s`, outside the enumerated write forms", id.Name, s.c.Src(n))
 				return false
@@ -440,6 +477,13 @@ func (s *sinkState) noSinkUse(n ast.Node) {
 
 func (s *sinkState) call(call *ast.CallExpr) {
 	info := s.info
+	if id, ok := ast.Unparen(call.Fun).(*ast.Ident); ok {
+		// a method value of a sink bound to a local: the call is the method call
+		if sel := s.bound[core.ObjOf(info, id)]; sel != nil {
+			s.call(&ast.CallExpr{Fun: sel, Lparen: call.Lparen, Args: call.Args, Ellipsis: call.Ellipsis, Rparen: call.Rparen})
+			return
+		}
+	}
 	if b := pat.Expr("binary.Write(_w, _order, _x)").Match(info, call, nil); b != nil {
 		if f := core.CalleeFunc(info, call); f != nil && f.Pkg() != nil && f.Pkg().Path() == "encoding/binary" {
 			s.write(b["_w"].(ast.Expr), []string{s.fixed(b["_x"].(ast.Expr), 0, orderOf(info, b["_order"].(ast.Expr)))}, call)
@@ -665,6 +709,13 @@ func (s *sinkState) stmt(st ast.Stmt) (ret []string, returned bool) {
 		}
 		return s.seqTokens(x.Results[0]), true
 	case *ast.EmptyStmt:
+	case *ast.BlockStmt:
+		// a plain nested block (what expanding a helper in place leaves): its statements run in order
+		for _, b := range x.List {
+			if r, ok := s.stmt(b); ok {
+				return r, true
+			}
+		}
 	default:
 		s.und("%s: statement %T: the body is not straight-line code", s.c.Pos(st.Pos()), st)
 	}
